@@ -118,6 +118,10 @@ pub trait Engine: Sync {
     fn cases(&self, tier: Tier) -> Box<dyn Iterator<Item = Self::Case> + Send + '_>;
     /// run the real code on the case and apply the oracles
     fn check(&self, case: &Self::Case) -> CaseResult;
+    /// whether the case serves the property (cases of other properties of a shared engine are skipped)
+    fn relevant(&self, _property: &str, _case: &Self::Case) -> bool {
+        true
+    }
     /// a measure used to pick the smallest counterexample
     fn size(&self, case: &Self::Case) -> usize {
         serde_json::to_string(case).map(|s| s.len()).unwrap_or(0)
@@ -291,6 +295,9 @@ pub fn run_engine<E: Engine>(engine: &E, property: &str, tier: Tier) -> i32 {
                     for i in 0..batch.len() {
                         *slots[w].cur.lock().unwrap() = Some((Instant::now(), batch.clone(), i));
                         let case = &batch[i];
+                        if !engine.relevant(property, case) {
+                            continue;
+                        }
                         let res = engine.check(case);
                         local.evaluations += 1;
                         for (p, k) in res.nontrivial {
